@@ -299,6 +299,8 @@ package jsonrpc2
 // decodeID: no id => the zero ID; an id that strconv.ParseInt accepts (an integer in int64 range, ParseInt trusted)
 // becomes exactly that integer, without any float64 step; everything else goes through MakeID.
 //@ func decodeID [C19]
+//@   track encoding/json.Unmarshal as stdDecCS
+//@   ensures @peer-data-is-decoded-case-sensitively calls(stdDecCS) == 0
 //@   track strconv.ParseInt as pint
 //@   track MakeID as mk
 //@   ensures @absent-id len(raw) == 0 ==> result.1 == nil && result.0.value == nil && calls(mk) == 0
@@ -307,6 +309,8 @@ package jsonrpc2
 //@   ensures @fallback-is-makeid result.1 == nil && calls(pint) == 1 && callResult(pint, 1, 1) != nil ==> calls(mk) == 1 && result.0 == callResult(mk, 1, 0)
 
 //@ func DecodeMessage [C19]
+//@   track encoding/json.Unmarshal as stdDecCS
+//@   ensures @peer-data-is-decoded-case-sensitively calls(stdDecCS) == 0
 //@   track decodeID as mkid
 //@   ensures @exactly-one-of result.0 == nil <==> result.1 != nil
 //@   ensures @id-error-propagates calls(mkid) == 1 && callResult(mkid, 1, 1) != nil ==> result.1 == callResult(mkid, 1, 1)
